@@ -1,6 +1,6 @@
 #!/bin/bash
 # usage: tools/runall.sh [quick|thorough]  -- runs every registered check, prints one summary line each; exit 1 if any check did not exit 0
-tier=${1:-quick}; cd /verif; rc=0
+tier=${1:-quick}; cd "$(dirname "$0")/.." || exit 2; rc=0
 for p in C02 C03 C04 C05 C06 C08 C09 C12 C13 C14 C16 C20; do
   out=$(./check $p $tier 2>&1); e=$?
   echo "$out" | grep -E "^C[0-9]+ $tier|VIOLATION|WARNING: probe|INFRASTRUCTURE" | sed "s/^/[$p exit=$e] /"
